@@ -104,6 +104,22 @@ func (c *Ctx) OpContexts(op *ssa.Function) []*Origins {
 	return out
 }
 
+// CtxOf returns the provenance context for reading an instruction: for a helper that is new on this tree
+// and has a single call site in the operation under analysis, the context entered from that site
+// (parameters read as the caller's arguments); otherwise the plain context of its function.
+func (c *Ctx) CtxOf(in ssa.Instruction) *Origins {
+	fn := in.Parent()
+	if fn.Parent() == nil && c.P.IsNewFunc(fn) && c.reqDepth < 4 {
+		sites := c.sitesInScope(c.callersOf(fn))
+		if len(sites) == 1 && sites[0].Parent() != fn {
+			c.reqDepth++
+			defer func() { c.reqDepth-- }()
+			return c.CtxOf(sites[0]).Enter(fn, sites[0])
+		}
+	}
+	return c.P.OriginsOf(fn)
+}
+
 // sitesInScope keeps the call sites that belong to the operation last looked at with OpContexts (a helper
 // shared by several operations is judged per operation); all sites when none is in scope.
 func (c *Ctx) sitesInScope(sites []ssa.CallInstruction) []ssa.CallInstruction {
